@@ -400,6 +400,15 @@ def bytes_stream(rng, sources, n):
                  '<environment xmlns="https://admin-shell.io/aas/3/0"><submodels><submodel><id>q</id></submodel>'
                  '</submodels></environment>',
                  '<environment xmlns="https://admin-shell.io/aas/2/0"><submodels/></environment>']
+    inner_j, inner_x = {"modelType": "Capability", "idShort": "c"}, "<aas:capability><aas:idShort>c</aas:idShort></aas:capability>"
+    for i in range(300):
+        inner_j = {"modelType": "SubmodelElementCollection", "idShort": f"s{i}", "value": [inner_j]}
+        if i < 120:
+            inner_x = (f"<aas:submodelElementCollection><aas:idShort>s{i}</aas:idShort><aas:value>{inner_x}</aas:value>"
+                       f"</aas:submodelElementCollection>")
+    fixed_json.append(json.dumps({"submodels": [{"modelType": "Submodel", "id": "urn:deep", "submodelElements": [inner_j]}]}))
+    fixed_xml.append(f"<aas:environment {NSD}><aas:submodels><aas:submodel><aas:id>urn:deep</aas:id><aas:submodelElements>"
+                     f"{inner_x}</aas:submodelElements></aas:submodel></aas:submodels></aas:environment>")
     for s in fixed_json:
         out.append(("json", s, True))
     for s in fixed_xml:
@@ -690,7 +699,7 @@ def run(chk):
     from py2coq import readerflow, TranslationError
     rng = chk.rng
     quick = chk.tier == "quick"
-    n_gen, budget, n_walk, n_bytes, n_frag = (12, 7000, 400, 400, 3500) if quick else (60, 120000, 4000, 5000, 40000)
+    n_gen, budget, n_walk, n_bytes, n_frag = (12, 6000, 400, 400, 3500) if quick else (60, 120000, 4000, 5000, 40000)
     # ---- tie T
     trans = None
     try:
@@ -714,7 +723,8 @@ def run(chk):
     chk.notes += notes
     chk.cov["base_documents"] = {"read_by_all_four_readers": len(sources), "oracle_failures_undamaged": len(prefails),
                                  "skipped_with_note": notes}
-    specs, total = C.enumerate_cases(rng, sources, budget, forced_cap=(2000 if quick else 12000))
+    specs, total = C.enumerate_cases(rng, sources, budget, forced_cap=(1500 if quick else 12000),
+                                      typed_cap=(1800 if quick else None))
     chk.cov["damage_cases_enumerated"] = total
     chk.cov["damage_cases_run"] = len(specs)
 
